@@ -23,7 +23,7 @@ class WrapUse(Stream):
             "existence of token entry / cubbyhole keys, a later attempt and the unwrap of a rewrapped token are replayed "
             "on the Lean model; 12 (thorough 120) sequential rewrap histories (wrap, lookup, third-/first-party rewrap generations, "
             "lookup on each new token, unwrap) comparing creation_path / creation_ttl / creation-time class of lookup and of every "
-            "wrap_info; plus, sequentially, 20 policy probes with fresh wrapping tokens and TTL expiry (1 s TTL, "
+            "wrap_info; plus, sequentially, 20 policy probes with fresh wrapping tokens, each once with the wrapping requested by root and once by a token bound to an identity entity whose identity policy grants the probed paths, and TTL expiry (1 s TTL, "
             "2.2 s sleep); non-trivial = answer is not a refusal; distinct = distinct op line")
 
     def nontrivial(self, op, impl):
@@ -36,7 +36,8 @@ class WrapUse(Stream):
             for o, a in zip(ops, impls):
                 f = o.split("\t")
                 if f[0] == "probe" and a == "allowed" and (f[1], f[2]) not in GRANTED:
-                    out.append("wrapping token was allowed %s on %s" % (f[2], f[1]))
+                    out.append({"what": "wrapping token (wrapping requested by %s) was allowed %s on %s" % (f[3] if len(f) > 3 else "root", f[2], f[1]),
+                                "signature": "wrapping-token-grants-more"})
                 if f[0] == "probe" and a.startswith("nowrap"):
                     out.append("response to the original requester is not wrap-info only: " + a)
                 if f[0] == "wused" and (obtained(a) or a.startswith("ok")):
